@@ -51,6 +51,25 @@ def five_stage_config(ctx: Ctx) -> dict:
     given = {names[i]: a for i, a in enumerate(call.args) if i < len(names)}
     given.update({k.arg: k.value for k in call.keywords if k.arg})
     st_e, ord_e = given.get("stages"), given.get("execution_ordering")
+
+    def _project(x):
+        # `(a, b)[0]` is `a`; `(p if c else q)[0]` is `p[0] if c else q[0]`, resolved under the five-stage condition (a helper that
+        # returns the stage list and the order as one tuple)
+        import copy as _c
+        for _ in range(4):
+            if isinstance(x, ast.Subscript) and isinstance(x.slice, ast.Constant) and isinstance(x.slice.value, int):
+                v_ = x.value
+                if isinstance(v_, (ast.Tuple, ast.List)) and -len(v_.elts) <= x.slice.value < len(v_.elts) and not any(isinstance(y, ast.Starred) for y in v_.elts):
+                    x = v_.elts[x.slice.value]
+                    continue
+                if isinstance(v_, ast.IfExp):
+                    x = pr.resolve_under(ast.IfExp(test=v_.test, body=ast.Subscript(value=v_.body, slice=_c.deepcopy(x.slice), ctx=ast.Load()),
+                                                   orelse=ast.Subscript(value=v_.orelse, slice=_c.deepcopy(x.slice), ctx=ast.Load())), cb_found)
+                    continue
+            break
+        return x
+    cb_found = pr._mk("and", [fb] + [pr._bool(t, pol) for t, pol in e.cond])
+    st_e, ord_e = (_project(st_e) if st_e is not None else None), (_project(ord_e) if ord_e is not None else None)
     if not isinstance(st_e, ast.List) or ord_e is None:
         raise AnalysisError("five-stage branch no longer binds `stages` (a list of stage constructor calls) and `execution_ordering`")
     stages, stage_calls = [], []
